@@ -5402,7 +5402,10 @@ size_t ZSTD_compress_advanced_internal(
     FORWARD_IF_ERROR( ZSTD_compressBegin_internal(cctx,
                          dict, dictSize, ZSTD_dct_auto, ZSTD_dtlm_fast, NULL,
                          params, srcSize, ZSTDb_not_buffered) , "");
-    return ZSTD_compressEnd_public(cctx, dst, dstCapacity, src, srcSize);
+    {   size_t const cSize = ZSTD_compressEnd_public(cctx, dst, dstCapacity, src, srcSize);
+        cctx->pledgedSrcSizePlusOne = 0;   /* one-shot frame is over : srcSize must not survive as a pledge for a later streaming frame */
+        return cSize;
+    }
 }
 
 size_t ZSTD_compress_usingDict(ZSTD_CCtx* cctx,
@@ -5824,7 +5827,10 @@ static size_t ZSTD_compress_usingCDict_internal(ZSTD_CCtx* cctx,
                                 const ZSTD_CDict* cdict, ZSTD_frameParameters fParams)
 {
     FORWARD_IF_ERROR(ZSTD_compressBegin_usingCDict_internal(cctx, cdict, fParams, srcSize), ""); /* will check if cdict != NULL */
-    return ZSTD_compressEnd_public(cctx, dst, dstCapacity, src, srcSize);
+    {   size_t const cSize = ZSTD_compressEnd_public(cctx, dst, dstCapacity, src, srcSize);
+        cctx->pledgedSrcSizePlusOne = 0;   /* see ZSTD_compress_advanced_internal() */
+        return cSize;
+    }
 }
 
 /*! ZSTD_compress_usingCDict_advanced():
